@@ -9,6 +9,7 @@ import (
 	"os"
 	"os/exec"
 	"strings"
+	"syscall"
 	"time"
 
 	"verif/harness/tr"
@@ -48,6 +49,7 @@ func isolated(t *tr.Writer, driver string, c interface{}, timeout time.Duration)
 	ctx, cancel := context.WithTimeout(context.Background(), timeout)
 	defer cancel()
 	cmd := exec.CommandContext(ctx, self, driver, "-only", string(b), "-extra", "child", "-out", tmp)
+	cmd.SysProcAttr = &syscall.SysProcAttr{Pdeathsig: syscall.SIGKILL} // a child never outlives the driver
 	var stderr strings.Builder
 	cmd.Stderr = &stderr
 	err := cmd.Run()
